@@ -71,7 +71,13 @@ def run(tier, seed):
         sample = qs if tier == "quick" else ts
         return item, runner.run_driver({f: vhs[f] for f in A2}, driver, seed, tier, wdir, per_case_timeout=tmo, env_extra=SAN_ENV, sample=sample, workers=6)
 
-    # several drivers at a time: most quick samples are too small to keep 16 cores busy on their own
+    # several drivers at a time: most quick samples are too small to keep 16 cores busy on their own; the MPI runs go alongside
+    import threading
+    mpi_out = engine.Outcome(pid, tier, seed)
+    mpi_thread = None
+    if not only:
+        mpi_thread = threading.Thread(target=mpi_sanitized, args=(mpi_out, vhs["A-real"], vhs["P-real"], wdir, seed, tier))
+        mpi_thread.start()
     with cf.ThreadPoolExecutor(max_workers=4) as ex:
         results = list(ex.map(go, plan))
     for (item, merged) in results:
@@ -105,6 +111,14 @@ def run(tier, seed):
         for case in res.cases:
             out.add_case(case, "bounds", fl)
     engine.record_incidents(out, merged, "bounds", {f: vhs[f] for f in ("P-real", "P-cplx")}, seed, tier, key_driver="workload")
+    if mpi_thread is not None:
+        mpi_thread.join()
+        for k, w in mpi_out.violations.items():
+            for _ in range(mpi_out.vcount.get(k, 1)):
+                out.add_violation(k, w)
+        for k, v in mpi_out.counters.items():
+            out.counters[k] = out.counters.get(k, 0) + v
+        out.infra.extend(mpi_out.infra); out.inconclusive.extend(mpi_out.inconclusive)
     out.extra["cases_executed_under_sanitizers"] = executed
     if tier == "thorough":
         memcheck(out, vhs["P-real"], wdir, seed, tier)
@@ -112,6 +126,43 @@ def run(tier, seed):
         "red-zone tools miss non-adjacent overflows and reads that stay inside an allocation (partly covered by the Eigen precondition checks and memcheck); only code the workloads reach is observed",
         "MemorySanitizer is not used (uninstrumented libstdc++/Boost/OpenMPI would raise false alarms); uninitialised reads are covered by valgrind memcheck in the thorough tier",
         "a clean run means 'no report on these executions', not memory safety"])
+
+
+def mpi_sanitized(out, vh_asan, vh_plain, wdir, seed, tier):
+    """The MPI buffer paths (reductions, broadcasts of term lists and eigen-data) under ASan+UBSan with several ranks, and under
+    valgrind memcheck with more ranks than 2PGF parts (a rank without a job hands its buffer to the reduction untouched)."""
+    import glob as _glob
+    from . import mpirun
+    runs = [("asan", vh_asan, 3, 0, 4 if tier == "quick" else 14, dict(SAN_ENV)), ("asan", vh_asan, 5, 4, 7 if tier == "quick" else 30, dict(SAN_ENV))]
+    supp = "/usr/share/openmpi/openmpi-valgrind.supp"
+    vg = ["valgrind", "--tool=memcheck", "-q", "--error-exitcode=0", "--num-callers=30", "--leak-check=no", "--track-origins=no"] + (["--suppressions=" + supp] if os.path.exists(supp) else [])
+    runs.append(("memcheck", vg + [vh_plain], 5, 0, 1 if tier == "quick" else 8, {"VH_STDERR_MARKERS": "1"}))
+    for (tool, vh, np_, lo, hi, env) in runs:
+        tag = "mpi.%s.np%d" % (tool, np_)
+        odir = os.path.join(wdir, tag + ".stderr")
+        res = mpirun.launch(vh, "par", np_, seed, "quick", lo, hi, wdir, tag, env, 1500 if tool == "memcheck" else 600, mpiexec_args=["--output-filename", odir])
+        ncases = len(res["ranks"][0][0])
+        out.counters["mpi_%s_cases" % tool] = out.counters.get("mpi_%s_cases" % tool, 0) + ncases
+        if res["timed_out"]:
+            out.inconclusive.append("%s run of par under mpiexec -np %d did not finish within the watchdog" % (tool, np_))
+        elif ncases < hi - lo:
+            out.infra.append("%s run of par under mpiexec -np %d completed only %d of %d cases; stderr tail: %s" % (tool, np_, ncases, hi - lo, res["stderr"][-600:]))
+        for path in sorted(_glob.glob(os.path.join(odir, "*", "rank.*", "stderr"))):
+            txt = open(path, "r", errors="replace").read()
+            for rep in sanitizer_logs.parse_text(txt):
+                if tool == "memcheck" and rep["tool"] != "memcheck":
+                    continue
+                key = "C17:%s:%s:%s" % (rep["tool"], rep["kind"], rep["site"])
+                out.counters["reports:" + rep["tool"]] = out.counters.get("reports:" + rep["tool"], 0) + 1
+                wit = dict(driver="par", flavour="A-real" if tool == "asan" else "P-real", case=rep["case"], monitor=rep["tool"] + "+mpi", detail="mpiexec -np %d: %s" % (np_, rep["text"][:3300]),
+                           replay_special="mpi-sanitizer", np=np_, env=env, tool=tool)
+                if rep["owner"] == "library":
+                    out.add_violation(key, wit)
+                elif rep["owner"] == "harness":
+                    out.infra.append("%s report inside harness code under mpiexec -np %d: %s" % (tool, np_, rep["text"][:800]))
+                else:
+                    out.counters["reports:external"] = out.counters.get("reports:external", 0) + 1
+        # the par driver's own verdicts belong to C06
 
 
 def memcheck(out, vh, wdir, seed, tier):
